@@ -749,7 +749,10 @@ class Object(base.Symbolic, metaclass=ObjectMeta):
     self._set_raw_attr('_sym_attributes', sym_attributes)
     self._sym_attributes.sym_setparent(self)
     self._on_init()
-    self.seal(sealed)
+    # NOTE: a new node is not sealed, and the members it was given keep their
+    # own flags unless the node itself is sealed.
+    if sealed:
+      self.seal(True)
 
   #
   # Events that subclasses can override.
